@@ -17,12 +17,12 @@ global size_of usize == 8;
 pub assume_specification<T> [std::mem::replace] (dest: &mut T, src: T) -> (r: T)
     ensures r == *old(dest), *final(dest) == src;
 /// opaque collaborators; their reset contracts are discharged in units v_buf0 (InputBuffer::reset => buf_clean) and v_lattice
-pub struct InputBuffer { _p: () }
+#[verifier::external_body] pub struct InputBuffer { _p: () }
 impl InputBuffer {
     uninterp spec fn sp_clean(&self) -> bool;
     #[verifier::external_body] fn reset(&mut self) -> (r: &mut String) ensures final(self).sp_clean() { unimplemented!() }
 }
-pub struct Lattice { _p: () }
+#[verifier::external_body] pub struct Lattice { _p: () }
 spec fn normalized(s: u32) -> bool {
     &&& ((s & 8u32 == 8u32 || s & 16u32 == 16u32 || s & 32u32 == 32u32) ==> s & 1u32 == 1u32)
     &&& ((s & 64u32 == 64u32 || s & 128u32 == 128u32) ==> s & 2u32 == 2u32)
